@@ -114,6 +114,71 @@ func (in *Interp) check(extra *Term, vars []*Term) (SatResult, map[*Term]uint64)
 	return in.w.solver.Check(in.pc, extra, vars)
 }
 
+// ---------- model cache (counterexample cache): models known to satisfy a prefix of the PC ----------
+
+type cachedModel struct {
+	env      map[string]uint64
+	memo     map[int32]uint64
+	validLen int  // satisfies pc[:validLen]
+	dead     bool // violates some pc term
+}
+
+// modelSat reports whether a cached model satisfies the current PC and cond (terms are
+// hash-consed per worker, so the memo stays valid across paths).
+func (in *Interp) modelSat(m *cachedModel, cond *Term) bool {
+	for _, p := range in.pc {
+		if evalTerm(p, m.env, m.memo) == 0 {
+			return false
+		}
+	}
+	return evalTerm(cond, m.env, m.memo) != 0
+}
+
+func (in *Interp) cacheLookup(cond *Term) bool {
+	ms := in.w.models
+	for i := len(ms) - 1; i >= 0; i-- {
+		if in.modelSat(ms[i], cond) {
+			if i != len(ms)-1 { // move to front (most recently useful last)
+				m := ms[i]
+				copy(ms[i:], ms[i+1:])
+				ms[len(ms)-1] = m
+			}
+			return true
+		}
+	}
+	return false
+}
+
+func (in *Interp) cacheAdd(model map[*Term]uint64) {
+	if model == nil {
+		return
+	}
+	env := make(map[string]uint64, len(model))
+	for t, v := range model {
+		env[t.name] = v
+	}
+	w := in.w
+	if len(w.models) >= 48 {
+		w.models = w.models[1:]
+	}
+	w.models = append(w.models, &cachedModel{env: env, memo: map[int32]uint64{}})
+}
+
+// feasible decides satisfiability of PC ∧ cond, consulting the model cache first. Variables
+// created later default to 0 in cached models, which is sound because a fresh variable is
+// unconstrained when it is created (its constraints enter the PC afterwards and are re-checked).
+func (in *Interp) feasible(cond *Term) SatResult {
+	if in.cacheLookup(cond) {
+		in.w.cacheHits++
+		return Sat
+	}
+	r, m := in.check(cond, in.vars)
+	if r == Sat {
+		in.cacheAdd(m)
+	}
+	return r
+}
+
 // branch decides a symbolic condition; returns the side taken.
 func (in *Interp) branch(th *Thread, c *Term, why string) bool {
 	if in.decIdx < len(in.prefix) {
@@ -133,14 +198,14 @@ func (in *Interp) branch(th *Thread, c *Term, why string) bool {
 		}
 		return taken
 	}
-	rT, _ := in.check(c, nil)
+	rT := in.feasible(c)
 	if rT == Unsat {
 		in.path = append(in.path, Decision{Kind: 'F', N: 1, Choice: 1, Why: why})
 		in.decIdx++
 		return false
 	}
 	nc := in.st.Not(c)
-	rF, _ := in.check(nc, nil)
+	rF := in.feasible(nc)
 	if rF == Unsat {
 		in.path = append(in.path, Decision{Kind: 'F', N: 1, Choice: 0, Why: why})
 		in.decIdx++
@@ -221,7 +286,7 @@ func (in *Interp) assume(th *Thread, c *Term) {
 		return
 	}
 	if !in.inPrefix() {
-		r, _ := in.check(c, nil)
+		r := in.feasible(c)
 		if r == Unsat {
 			in.fail("assume", "")
 		}
@@ -372,6 +437,8 @@ type Worker struct {
 	qTotal, qSat, qUnsat, qUnknown int
 	qWall  time.Duration
 	trace  bool
+	cacheHits int
+	models    []*cachedModel
 }
 
 func (w *Worker) push(h *Harness, prefix []Decision) {
@@ -391,6 +458,7 @@ func (w *Worker) resetSolver() {
 		w.solver.Close()
 	}
 	w.st = NewStore()
+	w.models = nil
 	s, err := NewSolver(w.solverName, w.timeout)
 	if err != nil {
 		panic(err)
